@@ -116,6 +116,10 @@ func reportGroup(c *vf.Ctx, r groupResult) {
 		c.Count("group_scenarios_concurrent_creation", 1)
 	}
 	c.Count("group_wait_checks", r.Checks)
+	c.Count("group_pools_shut_down_individually_before_group_shutdown", r.IndivStopped)
+	c.Count("group_shutdowns_over_stopped_and_running_pools", r.MixedShutdowns)
+	c.Count("group_pools_verified_stopped_after_group_shutdown", r.StoppedByGroup)
+	c.Count("group_subgroups_shut_down_before_the_root", r.SubgroupShutdowns)
 	c.Count("group_wait_parked_observations", r.Parked)
 	c.Count("group_wait_returned_observations", r.Returned)
 	c.Distinct("nontrivial", "group/"+r.Tree)
@@ -159,6 +163,9 @@ func reportRC(c *vf.Ctx, r rcResult) {
 	c.Count("rc_tasks_run_before_first_shutdown", r.FirstTasks)
 	c.Count("rc_submits_on_running_pool_not_accepted", r.Unaccepted)
 	c.Count("rc_group_shutdown_returned_while_busy", r.GroupShutEarly)
+	c.Count("rc_sibling_pools_shut_down_individually", r.IndivStopped)
+	c.Count("rc_group_shutdowns_over_stopped_and_running_pools", r.MixedGroupShutdowns)
+	c.Count("rc_pools_verified_stopped_after_group_shutdown", r.StoppedByGroup)
 	c.Count("rejected_submits", r.Rejected)
 	c.Count("recovered_submit_panics", r.Recovered)
 	c.Count("tasks_accepted", r.Accepted)
@@ -679,6 +686,11 @@ func run(c *vf.Ctx) {
 	c.Require("group_scenarios_concurrent_creation", c.Pick(500, 5000))
 	c.Require("stress_runs_submit_overlapping_shutdown", c.Pick(300, 9000))
 	c.Require("stress_runs_race_build", c.Pick(300, 6000))
+	c.Require("group_shutdowns_over_stopped_and_running_pools", c.Pick(400, 4000))
+	c.Require("group_pools_verified_stopped_after_group_shutdown", c.Pick(2000, 20000))
+	c.Require("group_subgroups_shut_down_before_the_root", c.Pick(200, 2000))
+	c.Require("rc_group_shutdowns_over_stopped_and_running_pools", c.Pick(50, 300))
+	c.Require("rc_pools_verified_stopped_after_group_shutdown", c.Pick(250, 1500))
 	c.Require("rc_scenarios", c.Pick(192, 1152))
 	c.Require("rc_option_combinations", 96) // 6 worker-count classes x cancel x panic-on-submit x 4 tree shapes
 	c.Require("rc_restart_cycles", c.Pick(380, 2300))
